@@ -14,7 +14,7 @@ CHECKS = {
 }
 CHECKS["C01"] = ("exploration",
    "property-based testing (proptest) of the real daemon against a strict mock ACME CA; oracle = independent normalisation (own punycode, RFC 5952) + own DER walker over the CSR + key-file snapshot",
-   "Generated certificate configurations (with a key file that is absent, usable, garbage or of another type; a CA whose order object spells the identifiers as requested, in upper case or in reverse order) are run through the real acmed binary until the first post-operation hook; the mock CA records the newOrder and finalize bodies, which are judged against identifiers normalised independently and against the key file snapshotted by the hook recorder.",
+   "A metamorphic section normalises one label inside six different names through the daemon's identifier constructor (same A-label everywhere, fixed point). Generated certificate configurations (with a key file that is absent, usable, garbage or of another type; a CA whose order object spells the identifiers as requested, in upper case or in reverse order) are run through the real acmed binary until the first post-operation hook; the mock CA records the newOrder and finalize bodies, which are judged against identifiers normalised independently and against the key file snapshotted by the hook recorder.",
    "One issuance per case against a fault-free CA; cargo feature only zeroes poll/retry waits. Trusts OpenSSL for CSR signature verification.",
    "DESIGN.md 4 C01")
 CHECKS["C19"] = ("exploration",
@@ -24,7 +24,7 @@ CHECKS["C19"] = ("exploration",
    "DESIGN.md 4 C19")
 CHECKS["C02"] = ("exploration",
    "property-based testing (proptest): issuance histories through the real daemon compared with the bytes the mock CA served; stateful write histories through the real storage functions (in-crate probe) compared with the bytes written; bincode mirror must consume the whole account file",
-   "Histories in which a shorter content follows a longer one (chains, keys of different types, account records) are generated on purpose and counted; after every write/issuance the file must equal exactly the new content; one write history in five runs under a file-size limit, where a write that does not fit must be reported as failed instead of leaving a cut file behind a success.",
+   "Histories in which a shorter content follows a longer one (chains, keys of different types, account records) are generated on purpose and counted; after every write/issuance the file must equal exactly the new content; the CA serves its chains with LF, CRLF or no final line end; one write history in five runs under a file-size limit, where a write that does not fit must be reported as failed instead of leaving a cut file behind a success.",
    "Account file bytes are not predictable in black-box runs (random keys, timestamps): residue there is detected structurally with a mirror of the record layout.",
    "DESIGN.md 4 C02")
 CHECKS["C03"] = ("fault_enumeration",
@@ -79,7 +79,7 @@ CHECKS["C13"] = ("exploration",
    "DESIGN.md 4 C13")
 CHECKS["C10"] = ("exploration",
    "model-based property testing (proptest): generated hook/group/env configurations run through the real daemon; the hook recorder's trace of the first two attempts must equal the trace predicted by an independent hook-trace model",
-   "Hook lists with nested groups, multi-typed hooks, hook names that look like file names of markup formats, allow_failure and exit behaviours of every kind, stdin/stdout/stderr templates and five levels of environment tables; order, selection by type, variables, environment precedence, stdin, output files, create/edit bracketing, non-overlap and failure propagation are compared invocation by invocation.",
+   "Hook lists with nested groups, multi-typed hooks, hook names that look like file names of markup formats, argument templates without any expression, allow_failure and exit behaviours of every kind, stdin/stdout/stderr templates and five levels of environment tables; order, selection by type, variables, environment precedence, stdin, output files, create/edit bracketing, non-overlap and failure propagation are compared invocation by invocation.",
    "Attempts are delimited by a recorder post-operation hook placed first in the certificate's list; whether [global].env reaches account hooks is not judged.",
    "DESIGN.md 4 C10, appendix C")
 CHECKS["C12"] = ("exploration",
@@ -89,7 +89,7 @@ CHECKS["C12"] = ("exploration",
    "DESIGN.md 4 C12, 6")
 CHECKS["C16"] = ("exploration",
    "property-based testing (proptest) of the shipped tacd binary: generated domains / digests / key types / listeners / input channels / client ALPN lists; oracle = harness TLS client (OpenSSL) + own DER walker applying the RFC 8737 certificate rules",
-   "Each case starts the release build of tacd and performs several handshakes with generated ALPN offers (clients offering every TLS version or TLS 1.2 at most); the certificate, the negotiated protocol and the refusal of foreign-only offers are checked.",
+   "Each case starts the release build of tacd (listening on 127.0.0.1, [::1], localhost or a unix socket; values by flag, standard input or files in six layouts; names up to 200 octets) and performs several handshakes with generated ALPN offers (clients offering every TLS version or TLS 1.2 at most, sending their flights at once or up to 1.1 s late); the certificate, the negotiated protocol and the refusal of foreign-only offers are checked.",
    "Clients without any ALPN extension are not judged (the property speaks of clients that offer other protocols).",
    "DESIGN.md 4 C16")
 CHECKS["C17"] = ("exploration",
